@@ -209,7 +209,16 @@ pub fn pinned(prop: &str) -> Vec<SProg> {
             // try_lock while another thread is about to lock (false deadlock on the pinned tree)
             v.push(sp(vec![vec![Lock(0), Unlock(0)], vec![TryLock(0), Unlock(0)]]));
         }
-        "C09" => {
+        "C09" | "C10" => {
+            // the receiver is dropped early: what is queued is drained by its destructor, a later send gets its message
+            // back (`Err(SendError(msg))`) - neither is a leak
+            v.push(sp(vec![vec![DropRx, Send(1)]]));
+            v.push(sp(vec![vec![DropRx, Join(1)], vec![Send(11)]]));
+            v.push(sp(vec![vec![Send(1), DropRx, Send(2), Join(1)], vec![Send(11), Send(12)]]));
+            v.push(sp(vec![vec![Recv, DropRx, Join(1), Join(2)], vec![Send(11)], vec![Send(21)]]));
+            if prop == "C10" {
+                return v;
+            }
             v.push(sp(vec![vec![TryRecv], vec![Send(5)]]));
             v.push(sp(vec![vec![Recv, TryRecv], vec![Send(5)], vec![Send(6)]]));
         }
@@ -284,8 +293,8 @@ fn kinds_for(prop: &str) -> (&'static str, GenOpts) {
         "C06" => ("FFFlltRWpujsrcnawfCT", GenOpts { fails: true, cells: true, loom_arc_pct: 15, ..Default::default() }),
         "C07" => ("llltttRRWWTTiiCa", GenOpts { cells: true, ..Default::default() }),
         "C08" => ("llccnnnppuuujwwffCgg", GenOpts { cells: true, ..Default::default() }),
-        "C09" => ("ssssrrrrCa", GenOpts { cells: true, forget_rx_pct: 10, ..Default::default() }),
-        "C10" => ("sssrrl", GenOpts { forget_rx_pct: 50, ..Default::default() }),
+        "C09" => ("ssssrrrrCaD", GenOpts { cells: true, forget_rx_pct: 10, ..Default::default() }),
+        "C10" => ("sssrrlD", GenOpts { forget_rx_pct: 50, ..Default::default() }),
         _ => ("l", GenOpts::default()),
     }
 }
